@@ -291,7 +291,7 @@ def model_checking(ctx):
     ]
     if ctx.thorough:
         jobs += [
-            ("mc-wire-2peers", "MCInterest", mc_cfg(True, MaxOps=4, MaxHold=0, AllowRepeat=False, **wire_side), "ok", None, 1500),
+            ("mc-wire-2peers", "MCInterest", mc_cfg(True, MaxOps=4, MaxHold=0, MaxDrops=1, AllowRepeat=False, **wire_side), "ok", None, 1500),
             ("mc-belief-2peers-all", "MCInterest", mc_cfg(True, MaxAcc=1, **dict(belief_side, MaxRemote=1, MaxHold=0)), "ok", None, 1500),
             ("mc-wire-1peer-repeats-faults", "MCInterest1", mc_cfg(False, **wire_side), "ok", None, 1500),
             ("mc-wire-1peer-fanout", "MCInterest1", mc_cfg(False, AllowFanout=True, AllowRepeat=False, **wire_side), "ok", None, 1500),
@@ -314,7 +314,11 @@ def model_checking(ctx):
             states += r.distinct
             transitions += r.generated
         else:
-            vlib.require_mc_fails(ctx, r, name, prop)
+            # with several workers TLC may reach a state violating the CONSEQUENCE (WireTruth) before the one violating the
+            # enqueue-time monitor: either one witnesses the deviation
+            alt = {"P_C05_NoSpuriousAnnounce": ("P_C05_NoSpuriousAnnounce", "P_C05_WireTruth")}.get(prop, (prop,))
+            if not any(a in r.violated for a in alt):
+                vlib.require_mc_fails(ctx, r, name, prop)
         summary[name] = [r.distinct, r.generated, "%.0fs" % r.wall, want]
     return states, transitions, summary
 
